@@ -234,7 +234,8 @@ def contains(t, idx):
 
 
 def grouping_differences(text):
-    """Adjacent operator pairs of a flat string that the two precedence tables group differently.
+    """Operator pairs of a flat string that the two precedence tables nest differently (one is
+    above the other in one tree and below it, or beside it, in the other), nearest pair first.
     Returns a list of (opx, opy) in canonical order."""
     toks = tokenize(text)
     try:
@@ -242,17 +243,25 @@ def grouping_differences(text):
     except ParseError:
         return []
     ng, nw = binary_nodes(tg, {}), binary_nodes(tw, {})
-    idxs = sorted(ng)
+    idxs = sorted(set(ng) & set(nw))
+
+    def relation(nodes, i, j):
+        if contains(nodes[i], j):
+            return "i-above-j"
+        if contains(nodes[j], i):
+            return "j-above-i"
+        return "beside"
+
+    found = []
+    for a, i in enumerate(idxs):
+        for j in idxs[a + 1:]:
+            if relation(ng, i, j) != relation(nw, i, j):
+                found.append((j - i, i, j))
     out = []
-    for i, j in zip(idxs, idxs[1:]):
-        if i not in nw or j not in nw:
-            continue
-        g_right = contains(ng[i][3], j)      # y binds the shared operand first
-        w_right = contains(nw[i][3], j)
-        if g_right != w_right:
-            pair = sorted([toks[i], toks[j]], key=lambda o: (-GNU_PREC[o], o))
-            if tuple(pair) not in out:
-                out.append(tuple(pair))
+    for _d, i, j in sorted(found):
+        pair = tuple(sorted([toks[i], toks[j]], key=lambda o: (-GNU_PREC[o], o)))
+        if pair not in out:
+            out.append(pair)
     return out
 
 
@@ -537,6 +546,14 @@ def main():
                 rejected_syntax.append(pid[1:])
             else:
                 chk.machinery(f"probe {e!r}: {st[pid]}")
+        # ... and which of those does the referee know? (GNU ld 2.40 has no `^`)
+        no_reference = []
+        for pid, e, _msg in probes:
+            if pid in accepted:
+                vals, _drp, _ln = ld_batch([(pid, e)])
+                if pid not in vals:
+                    accepted.discard(pid)
+                    no_reference.append(pid[1:])
         binops = [op for op in BINOPS if f"b{op}" in accepted]
         unops = [op for op in UNOPS if f"u{op}" in accepted]
         funcs = [f for f in FUNCS2 if f"f{f}" in accepted]
@@ -725,6 +742,12 @@ def main():
     for i, (st, det) in W.items():
         k = st if st != "eval-error" else f"eval-error:{det}"
         by_status[k] = by_status.get(k, 0) + 1
+    err_examples = {}
+    for i, (st, det) in sorted(W.items()):
+        if st in ("eval-error", "parse-reject"):
+            lst = err_examples.setdefault(f"{st}:{det}" if det else st, [])
+            if len(lst) < 6:
+                lst.append(f"{exprs[i]}  (GNU ld: {V[i]:#x})")
     by_set = {}
     for i in V:
         by_set[sets[i]] = by_set.get(sets[i], 0) + 1
@@ -753,6 +776,7 @@ def main():
         "operators_accepted_by_wild": binops + [f"unary{u}" for u in unops] + funcs
                                       + (["ALIGN"] if "fALIGN" in accepted else []),
         "syntax_rejected_by_wild": rejected_syntax,
+        "operators_without_reference_gnu_ld_rejects": no_reference,
         "gnu_ld_values": len(V),
         "gnu_ld_distinct_values": len(set(V.values())),
         "gnu_ld_rejected_verified": len(dropped),
@@ -763,6 +787,7 @@ def main():
         "expressions_with_value_by_set": by_set,
         "outside_property_wild_rejects": sum(v for k, v in by_status.items()
                                              if k == "parse-reject" or k.startswith("eval-error")),
+        "outside_property_examples": err_examples,
         "assert_semantics_members": len(d1),
         "model_vs_gnu_ld_disagreements": len(model_disagree),
         "model_vs_gnu_ld_examples": model_disagree[:5],
